@@ -44,6 +44,7 @@ def run(prog, chk):
     wiring(prog, chk)
     tspans(prog, chk)
     from props import geomalg
+    geomalg.check_sites(prog, chk, "C19")
     geomalg.check(prog, chk, "C19", floor=28)
 
 
